@@ -175,3 +175,150 @@ Example C02_any_duration_ex :
                        && eqb_listZ (map i_dur (q_generated q)) [7; 7; -4; 0]
   | None => false end = true.
 Proof. vm_compute. repeat split; reflexivity. Qed.
+
+From PV Require Import Queue.TieLib gen.QueueStepGen Queue.ProofsTie.
+
+(* ======================================================================================
+   TRANSLATOR TIE.  gen/QueueStepGen.v is regenerated from psiaudio/queue.py on every run by translate/pyqueue2coq.py:
+   one Gallina definition g_<method> per method of the generation path, statement by statement (coq/Queue/TieLib.v
+   says what the source constructs are mapped to).  The theorems below (proofs: coq/Queue/ProofsTie.v) say that these
+   definitions are the hand-written model, so that what is proved of the model above is proved of what the source
+   says now.  `mk q ev` is the queue object: the model's state q and the notifications delivered so far.
+   Invariant `tie_wf` (per policy; `True` for FIFO, random and interleaved queues that keep completed stimuli):
+   queued keys have their stimulus dict, group size >= 0, shuffled blocks hold indices >= 0.
+   ====================================================================================== *)
+
+(* the two readers of the current source, in ANY state with a source: array slicing (for non-negative requests) and
+   drawing from a factory *)
+Theorem C02_source_get_samples : forall q ev n k a b, q_source q = Some (k, a, b) ->
+    (0 <= n ->
+     g__get_samples_waveform (mk q ev) n =
+     GOk (mk (set_src q (if n >? b - a then None else Some (k, a + n, b)) (q_delay q)) ev)
+         (zrange (fun i => OWave k i) a (if n >? b - a then b - a else n))) /\
+    g__get_samples_generator (mk q ev) n =
+    GOk (mk (set_src q (if a + Z.min (b - a) n >=? b then None else Some (k, a + Z.min (b - a) n, b)) (q_delay q)) ev)
+        (zrange (fun i => OWave k i) a (Z.min (b - a) n)).
+Proof. exact source_get_samples. Qed.
+Print Assumptions C02_source_get_samples.
+
+(* next_key of every queue class (dispatched as the class hierarchy of the source says) is the model's next_key:
+   same key and state, QueueEmptyError with the object untouched, or an error on both sides *)
+Theorem C02_source_next_key : forall q ev0, tie_wf q -> nk_spec q ev0 (g_next_key (mk q ev0)) (next_key all_rep q).
+Proof. exact source_next_key. Qed.
+Print Assumptions C02_source_next_key.
+
+Theorem C02_source_decrement_key : forall q ev0 key e, dk_wf q -> znth (q_data q) key = Some e ->
+  dk_spec q ev0 (g_decrement_key (mk q ev0) key 1) (decrement_key q key).
+Proof. exact source_decrement_key. Qed.
+Print Assumptions C02_source_decrement_key.
+
+(* next_trial with and without the automatic decrement *)
+Theorem C02_source_next_trial : forall q ev0, tie_wf q ->
+  nt_spec q ev0 (g_next_trial (mk q ev0) true) (next_trial all_rep q) /\
+  nt_spec q ev0 (g_next_trial (mk q ev0) false) (next_trial_nd all_rep q).
+Proof. exact source_next_trial. Qed.
+Print Assumptions C02_source_next_trial.
+
+(* _pop_buffer: the four-way decision *)
+Theorem C02_source_pop_step : forall q ev0 n, tie_wf q -> 0 <= n ->
+  step_spec q ev0 (g__pop_buffer (mk q ev0) n true) (pop_step all_rep q n).
+Proof. exact source_pop_step. Qed.
+Print Assumptions C02_source_pop_step.
+
+(* pop_buffer: the `while samples > 0` loop, for every amount of fuel (out of fuel on one side = on the other) *)
+Theorem C02_source_pop_buffer : forall fuel q n, tie_wf q ->
+  obs_pop (g_pop_buffer fuel (mk q []) n true) = pop_loop fuel all_rep q n.
+Proof. exact source_pop_buffer. Qed.
+Print Assumptions C02_source_pop_buffer.
+
+Theorem C02_source_pop_buffer_nodecrement : forall fuel q n, tie_wf q ->
+  obs_pop (g_pop_buffer fuel (mk q []) n false) = pop_loop_nd fuel all_rep q n.
+Proof. exact source_pop_buffer_nd. Qed.
+Print Assumptions C02_source_pop_buffer_nodecrement.
+
+(* the invariant is kept by every request, and holds of every freshly built queue the C02 theorems speak of *)
+Theorem C02_source_invariant_kept : forall q n q' out ev,
+  tie_wf q -> pop_buffer all_rep q n = Some (q', out, ev) -> tie_wf q'.
+Proof. exact source_wf_kept. Qed.
+Print Assumptions C02_source_invariant_kept.
+
+Theorem C02_source_invariant_init : forall p es ch pm,
+  wf_policy p (zlen es) = true -> oracle_ok p pm -> tie_wf (qinit p es ch pm).
+Proof. exact tie_wf_init. Qed.
+Print Assumptions C02_source_invariant_init.
+
+(* runs of the generated pop_buffer are the model's runs *)
+Theorem C02_source_runs : forall ns q, tie_wf q -> obs_pop (g_pops (mk q []) ns) = pops all_rep q ns.
+Proof. exact source_pops. Qed.
+Print Assumptions C02_source_runs.
+
+(* C02_timeline, C02_chunk_invariant and C02_never_stuck restated over runs of the GENERATED pop_buffer *)
+Theorem C02_source_timeline : forall p es ch pm ns self out,
+  wf_queue p es = true -> oracle_ok p pm -> forallb (fun n => 0 <=? n) ns = true ->
+  g_pops (mk (qinit p es ch pm) []) ns = GOk self out ->
+  out = render es (added_of (o_ev self)) (sumZ ns) /\ q_samples (o_q self) = sumZ ns /\
+  spacing_ok es (added_of (o_ev self)) = true.
+Proof. exact source_timeline. Qed.
+Print Assumptions C02_source_timeline.
+
+Theorem C02_source_chunk_invariant : forall p es ch pm pre a b s0 o0 s1 o1,
+  wf_queue p es = true -> forallb progress_entry es = true -> oracle_ok p pm ->
+  forallb (fun n => 0 <=? n) (a :: b :: pre) = true ->
+  g_pops (mk (qinit p es ch pm) []) pre = GOk s0 o0 ->
+  g_pop_buffer (pop_fuel (o_q s0) (a + b)) s0 (a + b) true = GOk s1 o1 ->
+  exists s2 o2, g_pops s0 [a; b] = GOk s2 o2 /\
+    o1 = o2 /\ added_of (o_ev s1) = added_of (o_ev s2) /\ q_samples (o_q s1) = q_samples (o_q s2) /\
+    q_empty (o_q s1) = q_empty (o_q s2) /\ map e_trials (q_data (o_q s1)) = map e_trials (q_data (o_q s2)).
+Proof. exact source_chunk_invariant. Qed.
+Print Assumptions C02_source_chunk_invariant.
+
+Theorem C02_source_never_stuck : forall p es ch pm ns,
+  wf_queue p es = true -> forallb progress_entry es = true -> forallb (fun n => 0 <=? n) ns = true ->
+  match p with
+  | PRandom | PBlockedRandom => True
+  | _ => exists self out, g_pops (mk (qinit p es ch pm) []) ns = GOk self out
+  end.
+Proof. exact source_never_stuck. Qed.
+Print Assumptions C02_source_never_stuck.
+
+(* every hypothesis is needed: a negative request (source: slice from the end; model: nothing) ... *)
+Theorem C02_source_pop_step_refuted : exists q out, tie_wf q /\
+  g__pop_buffer (mk q []) (-1) true = GOk (mk (set_src q (Some (0, 2, 3)) 0) []) out /\ out = [OWave 0 0; OWave 0 1] /\
+  pop_step all_rep q (-1) = PBok (set_src q (Some (0, -1, 3)) 0) [] [].
+Proof. exact tie_pop_step_refuted. Qed.
+Print Assumptions C02_source_pop_step_refuted.
+
+(* ... a queued key without a stimulus dict (source: KeyError; model: 0 trials left, next key) ... *)
+Theorem C02_source_next_key_refuted_keys : exists q k q1 s, q_pol q = PInter false /\ ~ keys_ok q /\
+  next_key all_rep q = NKey k q1 /\ g_next_key (mk q []) = GRaise EKeyError s.
+Proof. exact tie_next_key_refuted_keys. Qed.
+Print Assumptions C02_source_next_key_refuted_keys.
+
+(* ... a negative group size (source: indexes from the end; model: error) ... *)
+Theorem C02_source_next_key_refuted_group : exists q k s, q_pol q = PGrouped (-2) /\
+  next_key all_rep q = NError /\ g_next_key (mk q []) = GOk s k.
+Proof. exact tie_next_key_refuted_group. Qed.
+Print Assumptions C02_source_next_key_refuted_group.
+
+(* ... a negative index in a shuffled block (same) ... *)
+Theorem C02_source_next_key_refuted_perm : exists q k s, q_pol q = PBlockedRandom /\
+  next_key all_rep q = NError /\ g_next_key (mk q []) = GOk s k.
+Proof. exact tie_next_key_refuted_perm. Qed.
+Print Assumptions C02_source_next_key_refuted_perm.
+
+(* ... a key of the group without a stimulus dict (source: KeyError; model: counted as done) *)
+Theorem C02_source_decrement_key_refuted : exists q q2 s, q_pol q = PGrouped 2 /\ ~ keys_ok q /\
+  decrement_key q 0 = Some q2 /\ g_decrement_key (mk q []) 0 1 = GRaise EKeyError s.
+Proof. exact tie_decrement_key_refuted. Qed.
+Print Assumptions C02_source_decrement_key_refuted.
+
+(* the hypotheses are satisfiable, and a generated run notifies what the model's does *)
+Example C02_source_ex :
+  let es := [mk_entry 2 3 KArray [1] true; mk_entry 1 2 KGen [0] true] in
+  wf_queue (PGrouped 2) es = true /\ forallb progress_entry es = true /\ oracle_ok (PGrouped 2) [] /\
+  tie_wf (qinit (PGrouped 2) es [] []) /\
+  match g_pops (mk (qinit (PGrouped 2) es [] []) []) [2; 5; 0; 9] with
+  | GOk self out => eqb_list eqb_pairZ (added_of (o_ev self)) [(0, 0); (1, 4); (0, 6)] && (zlen out =? 16)
+  | GRaise _ _ => false
+  end = true.
+Proof. exact source_ex. Qed.
